@@ -75,6 +75,14 @@ func runC05(c *Ctx) {
 	}
 	c05Relational(c, arms)
 	c05Equality(c, arms)
+	// "no matter how they are written": a number keeps its exact value through the sign operators (a negation done in a
+	// 16-digit context makes distinct negative numbers equal) and a literal's text is the text as written
+	if parms, und := c.prefixDispatch(); und == "" {
+		c04Wiring(c, "C05.sign-operators-exact", arms, parms, true)
+	}
+	if ns := c.numberScanners(); ns.Frag != nil && ns.Num != nil {
+		c12Stripped(c, ns, "C05.literal-text")
+	}
 }
 
 func c05Relational(c *Ctx, arms map[int64]OpArm) {
